@@ -117,10 +117,10 @@ def hexAddCell (k : Kernel) (hfs : List Nat) (chk : Bool) : Kernel × Option Nat
   else if hfs.any (fun hf => (k.faceAt (eOf hf)).length != 4) then (k, none)
   else if k.spanVertCount hfs != 8 then (k, none)        -- 7b999c9: eight distinct vertices
   else if !chk then k.addCell hfs false
-  else if k.hexCheckOrdering hfs then k.addCell hfs true
+  else if k.hexCheckOrdering hfs then (if k.oppPairsDisjoint hfs then k.addCell hfs true else (k, none))   -- 7800c85
   else match k.hexReorder hfs with
     | none => (k, none)
-    | some ord => k.addCell ord true
+    | some ord => if k.oppPairsDisjoint ord then k.addCell ord true else (k, none)
 
 /-! ### add_cell(vertices) (cc:260-432) -/
 
